@@ -897,6 +897,7 @@ func (h *handler) asyncSyncAdChain(ctx context.Context) {
 	syncer, updatePeerstore, err := h.makeSyncer(peerInfo, true)
 	if err != nil {
 		log.Errorw("Cannot make syncer for announce", "err", err, "peer", h.peerID)
+		h.asyncSyncFailed(nextCid, err)
 		return
 	}
 
@@ -908,20 +909,26 @@ func (h *handler) asyncSyncAdChain(ctx context.Context) {
 	syncCount, err := h.handle(ctx, nextCid, sel, syncer, h.subscriber.generalBlockHook, h.subscriber.segDepthLimit, stopAtCid)
 	verifYield("async:handled", h.peerID)
 	if err != nil {
-		// Failed to handle the sync, so allow another announce for the same CID.
-		if h.subscriber.receiver != nil {
-			h.subscriber.receiver.UncacheCid(nextCid)
-		}
 		log.Errorw("Cannot process message", "err", err, "peer", h.peerID)
-		h.subscriber.inEvents <- SyncFinished{
-			Cid:    nextCid,
-			PeerID: h.peerID,
-			Err:    err,
-		}
+		h.asyncSyncFailed(nextCid, err)
 		return
 	}
 	updatePeerstore()
 	h.sendSyncFinishedEvent(nextCid, syncCount)
+}
+
+// asyncSyncFailed is called when a sync started by an announce message failed.
+// It allows another announce for the same CID, and notifies OnSyncFinished
+// readers of the failure.
+func (h *handler) asyncSyncFailed(c cid.Cid, err error) {
+	if h.subscriber.receiver != nil {
+		h.subscriber.receiver.UncacheCid(c)
+	}
+	h.subscriber.inEvents <- SyncFinished{
+		Cid:    c,
+		PeerID: h.peerID,
+		Err:    err,
+	}
 }
 
 var _ SegmentSyncActions = (*segmentedSync)(nil)
